@@ -241,6 +241,8 @@ def run(prop, seed, budget, ctx):
     if prop == "C04":
         ff, fn = run_fallback(rnd, g, budget, hist, distinct)
         failures += ff; fallback_n = fn
+        ff, fn = run_skip(rnd, seed, budget, hist, distinct)
+        failures += ff; fallback_n += fn
     if prop == "C05":
         from discr import run_discr
         df, dn, dd, dh = run_discr(seed, budget, want=("roundtrip",))
@@ -368,6 +370,75 @@ def run_ordered(rnd, seed, budget, hist, distinct):
     return failures, n
 
 
+SKIP_HEADER = ["from dataclasses import dataclass, field", "from typing import *", "from apischema import Undefined, UndefinedType, alias", "from apischema.metadata import skip, none_as_undefined", ""]
+# (declaration, default expression or None, how the field may be omitted)
+SKIP_FIELDS = [
+    ("Optional[int]", "None", "metadata=skip(serialization_default=True)", "default"),
+    ("int", "0", "metadata=skip(serialization_default=True)", "default"),
+    ("str", "''", "metadata=skip(serialization_default=True)", "default"),
+    ("List[int]", "FACTORY:list", "metadata=skip(serialization_default=True)", "default"),
+    ("int", "7", "metadata=skip(serialization_if=lambda x: x == 13)", "if13"),
+    ("Optional[int]", "None", "metadata=skip(serialization_if=lambda x: x is None)", "ifnone"),
+    ("int", "1", "metadata=skip", "always"),
+    ("int", "1", "metadata=skip(serialization=True)", "always"),
+    ("Optional[int]", "None", "metadata=none_as_undefined", "none"),
+    ("Union[int, UndefinedType]", "Undefined", None, "undefined"),
+    ("Optional[int]", "None", None, "plain-optional"),
+    ("int", "5", None, "plain"),
+    ("int", None, None, "required"),
+]
+
+
+def run_skip(rnd, seed, budget, hist, distinct):
+    """C04, omission by metadata: a field is omitted exactly when it is Undefined, or None / equal to its default / matching its condition and
+    the metadata (skip(...), none_as_undefined) or the exclude_* option asks for it; every other field is written, in declaration order"""
+    import dataclasses
+    from apischema import serialize, Undefined
+    n_cls = 60 * budget; src = list(SKIP_HEADER); specs = []
+    for i in range(n_cls):
+        fs = [rnd.choice(SKIP_FIELDS) for _ in range(rnd.randint(1, 4))]
+        fs.sort(key=lambda f: f[1] is not None)
+        lines = ["@dataclass", f"class SK{i}:"]
+        for j, (tp, dflt, md, how) in enumerate(fs):
+            if dflt is None: rhs = f" = field({md})" if md else ""
+            elif dflt.startswith("FACTORY:"): rhs = f" = field(default_factory={dflt[8:]}" + (f", {md})" if md else ")")
+            else: rhs = f" = field(default={dflt}" + (f", {md})" if md else ")")
+            lines.append(f"    f{j}: {tp}{rhs}")
+        src += lines + [""]; specs.append((f"SK{i}", lines, fs))
+    mod = build_module(src, f"C04skip_{seed}")
+    failures, n = [], 0
+    for cname, lines, fs in specs:
+        cls = getattr(mod, cname)
+        for _ in range(6):
+            vals = {}
+            for j, (tp, dflt, md, how) in enumerate(fs):
+                pool = {"Optional[int]": [None, 0, 13, 4], "int": [0, 1, 5, 7, 13], "str": ["", "a"], "List[int]": [[], [1]], "Union[int, UndefinedType]": [Undefined, 0, 3]}[tp]
+                vals[f"f{j}"] = rnd.choice(pool)
+            so = {"exclude_none": rnd.random() < 0.4, "exclude_defaults": rnd.random() < 0.4}
+            v = cls(**vals); n += 1
+            want = []
+            for j, (tp, dflt, md, how) in enumerate(fs):
+                x = vals[f"f{j}"]
+                d = {"None": None, "0": 0, "''": "", "FACTORY:list": [], "7": 7, "1": 1, "5": 5, "Undefined": Undefined}.get(dflt, "NO-DEFAULT")
+                omit = (x is Undefined) or (how == "always") or (how == "default" and x == d) or (how == "if13" and x == 13) or (how == "ifnone" and x is None) \
+                    or (how == "none" and x is None) or (so["exclude_none"] and x is None and tp.startswith("Optional")) \
+                    or (so["exclude_defaults"] and dflt is not None and x == d)
+                if not omit: want.append(f"f{j}")
+            hist["skip-metadata-cases"] += 1
+            distinct.add(case_hash("skip", [f[3] for f in fs], repr(vals), so))
+            why = []
+            try:
+                out = serialize(cls, v, **so)
+                if not json_only(out): why.append("output-is-not-JSON-only")
+                elif list(out) != want: why.append("emitted-keys-differ-from-the-omission-rule")
+            except Exception as e: out = None; why.append("serialize-raises:" + type(e).__name__)
+            if why:
+                failures.append({"kind": "P", "part": "skip", "features": ["skip"] + sorted({f[3] for f in fs}), "class_src": lines, "value": repr(v), "sopts": so,
+                                 "serialized": repr(out), "expected_keys": want, "why": why, "k_ok": None})
+                hist["P:" + why[0].split(":")[0]] += 1
+    return failures, n
+
+
 def _json_value(rnd, depth):
     r = rnd.random()
     if depth <= 0 or r < 0.35:
@@ -423,6 +494,8 @@ def is_known(kid, case):
 
 def replay(prop, case, ctx):
     from apischema import deserialize, serialize
+    if case.get("part") == "skip":
+        return {k: case[k] for k in ("class_src", "value", "sopts", "serialized", "expected_keys", "why")}
     if case.get("part") == "ordered":
         return {"class": case["class_src"], "value": case["value"], "serialized": case["serialized"], "recorded": case["why"]}
     if case.get("part") == "fallback":
